@@ -137,6 +137,8 @@ type variable struct {
 	loopVar    bool
 	u8spelled  bool      // static type is spelled uint8 (from a uint8(..) conversion), which goose cannot name
 	root       *variable // for a slice obtained by subslicing: the slice whose backing array it shares
+	ranging    int       // > 0 inside the body of a range loop over this slice: no append to it there (the inner
+	// range of a nest over one slice doubles it on every pass: 3 -> 24 -> 24*2^24 elements)
 }
 
 func (v *variable) rootOf() *variable {
@@ -811,7 +813,7 @@ func (g *G) assign(sc *scope) bool {
 				g.line("%s%s", v.name, []string{"++", "--"}[g.rng.Intn(2)])
 			}
 			return true
-		case v.assignable && v.t.K == "slice" && g.rng.Chance(50):
+		case v.assignable && v.t.K == "slice" && v.ranging == 0 && g.rng.Chance(50):
 			g.feat("append-linear-" + v.t.Elem.K)
 			v.used = true
 			g.line("%s = append(%s, %s)", v.name, v.name, g.expr(sc, v.t.Elem, 1))
@@ -1153,7 +1155,9 @@ func (g *G) rangeStmt(sc *scope, depth int) {
 			}
 			g.ind++
 			g.loopDepth++
+			v.ranging++
 			g.stmts(&scope{parent: inner}, 1+g.rng.Intn(2), depth+1, tailPlain)
+			v.ranging--
 			g.loopDepth--
 			g.ind--
 			g.line("}")
